@@ -62,7 +62,7 @@ func (ch c17) Run(c *core.Ctx) {
 	nb := ch.Batches(c.Tier)
 	env := hs.Start(hs.Parse)
 	defer env.Stop()
-	depth, nrand, rdepth := 4, 8000, 6
+	depth, nrand, rdepth := 4, 40000, 6
 	if c.Tier == "thorough" {
 		depth, nrand, rdepth = 5, 500000, 8
 	}
